@@ -8,5 +8,6 @@ cd "$here/mc"
 cp -f /repo/go.sum go.sum
 $GO build -o "$here/bin/mc" ./cmd/mc
 for d in ./cmd/mc-c*; do $GO build -o "$here/bin/$(basename "$d")" "$d"; done
-$GO build -race -o "$here/bin/mc-c09-race" ./cmd/mc-c09   # warms the race-instrumented build cache for C09's race pass
+$GO build -race -o "$here/bin/mc-c09-race" ./cmd/mc-c09   # warms the race-instrumented build cache for the race passes (C09, C07)
+$GO build -race -o "$here/bin/mc-c07-race" ./cmd/mc-c07
 "$here/bin/mc" -list
